@@ -139,6 +139,11 @@ class Contract:
         self.ensures_.append((label, expr))
         return self
 
+    def ensures_internal(self, label, expr):
+        """a postcondition proved of the body but not exported to callers (it may mention ghost variables)"""
+        self.__dict__.setdefault("ensures_internal_", []).append((label, expr))
+        return self
+
     def raises(self, label, exc, when=None, ensures=(), exact=False):
         self.raises_.append((label, exc, when, list(ensures), exact))
         return self
@@ -156,6 +161,8 @@ class Contract:
         return self
 
     def call(self, pattern, **kw):
+        if kw.get("ghost"):
+            kw["ghost"] = {k.replace("$", "G_"): v for k, v in kw["ghost"].items()}
         self.calls.append(CallModel(pattern, **kw))
         return self
 
